@@ -199,7 +199,8 @@ def run_inner(ctx, case):
     rho = make_direction(r, D, 'dm' if case['prng'] % 2 else 'entangled', dims)
     bag = E.CHABoundaryBagging(dims)
     try:
-        beta, info = bag.solve(rho, maxiter=3 + case['kp'] * 3, return_info=True, seed=case['prng'] % 1000)
+        thr_kw = dict(threshold=3e-3) if case['kp'] % 2 == 0 else {}  # the reset threshold of the iteration is a caller's choice; the returned decomposition is complete either way
+        beta, info = bag.solve(rho, maxiter=3 + case['kp'] * 3, return_info=True, seed=case['prng'] % 1000, **thr_kw)
     except Exception as e:  # noqa
         if type(e).__name__ == 'SolverError':
             ctx.inconclusive_case('cvxpy SolverError in CHABoundaryBagging')
